@@ -1,7 +1,7 @@
 //! C01 — results are exactly the satisfying (state, colour) pairs.
 
 use super::common::*;
-use crate::formulas::{duplicate_templates, templates, Alphabet, Bi, Gen, Hy, Un, F};
+use crate::formulas::{duplicate_templates, pair_family, plain_pool, templates, Alphabet, Bi, Gen, Hy, Un, F};
 use crate::oracle::Labels;
 use crate::report::{Budget, Report};
 use crate::sem::{self, Checks, Entries};
@@ -56,6 +56,11 @@ pub fn run(tier: &str) -> Result<Report, String> {
         let mut tm = templates(&ctx.user, false, if quick { 2 } else { 8 });
         // duplicated one-free-variable sub-formulae at equal and different quantifier depths
         tm.extend(duplicate_templates(ctx.nprops(), if quick { 4 } else { 5 }, quick, false));
+        // every ordered pair of a pool of closed formulae (two related occurrences in one formula)
+        if (quick && ["con2", "asy2"].contains(&b.name.as_str())) || (!quick && (b.n == 2 || b.name == "cyc3")) {
+            let pool = plain_pool(&ctx.user);
+            tm.extend(pair_family(&pool, if quick { 4 } else { 12 }, false));
+        }
         let n_tmpl = tm.len();
         fs.extend(tm);
         parts.push(json!({"part": "core", "network": b.name, "max_nodes": m, "alphabet": alpha.describe(), "formulae": n_size, "template_formulae": n_tmpl}));
